@@ -190,6 +190,12 @@ class Tr:
                     and isinstance(n.right.value, int):
                 return f"({a} ^ {n.right.value})", ta
         if isinstance(n, ast.Call):
+            # `<expr>.astype(int)` is the array spelling of `int(<expr>)`
+            if isinstance(n.func, ast.Attribute) and n.func.attr == "astype" \
+                    and len(n.args) == 1 and dotted(n.args[0]) == "int" \
+                    and dotted(n.func.value) is None:
+                return self.tr(ast.Call(func=ast.Name(id="int", ctx=ast.Load()),
+                                        args=[n.func.value], keywords=[]))
             f = dotted(n.func)
             args = n.args
             if f in self.calls and not n.keywords and len(args) <= 1:
